@@ -73,14 +73,21 @@ class Language(XsdToken):
         return super(NormalizedString, cls).__new__(cls, value)  # noqa
 
 
+# XML 1.0 (Fifth Edition) productions [4] NameStartChar and [4a] NameChar, without the colon
+NAME_START_CHARS = (r'A-Z_a-z\u00C0-\u00D6\u00D8-\u00F6\u00F8-\u02FF\u0370-\u037D\u037F-\u1FFF'
+                    r'\u200C\u200D\u2070-\u218F\u2C00-\u2FEF\u3001-\uD7FF\uF900-\uFDCF\uFDF0-\uFFFD'
+                    r'\U00010000-\U000EFFFF')
+NAME_CHARS = NAME_START_CHARS + r'\-.0-9\u00B7\u0300-\u036F\u203F\u2040'
+
+
 class Name(XsdToken):
     name = 'Name'
-    pattern = LazyPattern(r'^(?:[^\d\W]|:)[\w.\-:\u00B7\u0300-\u036F\u203F\u2040]*$')
+    pattern = LazyPattern(r'^[:%s][:%s]*$' % (NAME_START_CHARS, NAME_CHARS))
 
 
 class NCName(Name):
     name = 'NCName'
-    pattern = LazyPattern(r'^[^\d\W][\w.\-\u00B7\u0300-\u036F\u203F\u2040]*$')
+    pattern = LazyPattern(r'^[%s][%s]*$' % (NAME_START_CHARS, NAME_CHARS))
 
 
 class Id(NCName):
@@ -97,4 +104,4 @@ class Entity(NCName):
 
 class NMToken(XsdToken):
     name = 'NMTOKEN'
-    pattern = LazyPattern(r'^[\w.\-:\u00B7\u0300-\u036F\u203F\u2040]+$')
+    pattern = LazyPattern(r'^[:%s]+$' % NAME_CHARS)
